@@ -59,9 +59,13 @@ func main() {
 	}
 	switch cmd {
 	case "list":
+		var out []map[string]string
 		for _, id := range props.IDs() {
-			fmt.Println(id)
+			p := props.Get(id)
+			out = append(out, map[string]string{"id": id, "technique": p.Technique, "explanation": p.Explanation, "not_decided": p.NotDecided})
 		}
+		b, _ := json.MarshalIndent(out, "", " ")
+		fmt.Println(string(b))
 	case "dump":
 		dump(*repo, *verbose)
 	case "check":
